@@ -37,8 +37,9 @@ CHECKS = {
  "C07": dict(
   text="Decidable Lean specification (ElementsSpec.specAll: stems partition/mirrored/maximal, hairpins exact, loops closed with paired "
        "consecutive ends and unpaired interiors, every unpaired nucleotide in exactly one interior) evaluated on the REAL element lists, and "
-       "an executable Lean model of BpSeq.elements compared description-by-description with the code; theorems that the model meets the "
-       "specification for every valid BPSEQ are in Props.C07 (see evidence for which parts are proved in full and which are _partial).",
+       "an executable Lean model of BpSeq.elements compared description-by-description with the code; Props.C07 proves that the model "
+       "meets every clause of the specification for EVERY valid BPSEQ (elements_meet_spec; stems_spec, hairpins_exact, candidates_tile, "
+       "loops_spec, loops_disjoint, unpaired_covered_once, strand_text_is_slice) — including the no-pairs case repaired in c356e0e.",
   note="The strand texts depend on the optimal dot-bracket (solver choice): the model takes the real structure line as input. Text = slice "
        "is checked as string equality in the harness.",
   technique="Lean 4 decidable spec + model/code functional correspondence (exhaustive n<=8/10, random nested/knotted) + Lean theorems model ⊨ spec",
@@ -82,6 +83,27 @@ CHECKS = {
        "CPython's iteration order of int / int-tuple sets is assumed to be a function of contents and insertion history.",
   technique="AST site inventory vs classified allow-list + Lean order-independence lemmas + hash-seed differential runs in fresh interpreters",
   ref="9/C14"),
+ "C19": dict(
+  text="Lean theorems (Props.C19) about a model of adapter.py's label normalisation, unit-id parsing, line dispatch and DSSR matching: "
+       "unify_lw/unify_stack/unify_bph_br (all case variants, n prefix, a suffix), unify_total, and for ALL ASCII strings "
+       "unify_other_iff (label is 'other' iff not in the explicit grammar Recognised); line_yields_one, line_skipped_iff, listing_total "
+       "(never raises; kept lines = lines meeting the line spec, in order); dssr_pairs_exact, dssr_stacks_exact, dssr_total. Bridges pin "
+       "the regenerated literal tables and the 18-member LW test (dssr_lw_test_exact).",
+  note="Python int() is modelled (whitespace, sign, underscores, 4300-digit limit) and compared exhaustively up to length 4/5, not "
+       "proved against a grammar; non-ASCII labels (str.upper() surprises) are outside the statement's alphabet and only counted; "
+       "adapter.main not modelled (public wrappers compared on 184D).",
+  technique="Lean 4 proof (structural, all strings) + exhaustive label/int strings up to length 4 (quick) / 5 (thorough) + generated listings and DSSR documents",
+  ref="9/C19"),
+ "C20": dict(
+  text="Lean theorems (Props.C20) about a model of transformer.py on abstract mmCIF documents: copy_frame / replace_frame (only the "
+       "target item of the target category changes; categories, items, rows and row order kept), copy_target_eq_source, "
+       "copy_new_item_appended, replace_is_firstSeen_image + firstSeen_injective (for alphabets without repeats), "
+       "replace_alphabet_exhausted_iff_error, missing_leaves_untouched, cli_eq_library (with the CLI's argument passing regenerated "
+       "from main()'s AST and pinned by the bridge cli_flags_fixed).",
+  note="The mmcif package's reader/writer is the trusted tokeniser (documents compared as maps category -> (items, rows); category order "
+       "is not demanded: the writer reorders categories). Injectivity is claimed for substitution alphabets without repeated letters.",
+  technique="Lean 4 proof (frame conditions, first-seen map) + parsed-document correspondence on corpus and generated mmCIF + CLI subprocess runs",
+  ref="9/C20"),
 }
 
 NOT_YET = {}
